@@ -117,6 +117,10 @@ func (r *Reader) readBlock() error {
 func (r *Reader) Read(p []byte) (n int, err error) {
 	if r.pos >= int64(len(r.data)) {
 		if err := r.readBlock(); err != nil {
+			// Drop the decode buffer: it may hold stale or unverified data
+			// that must not be served by subsequent reads.
+			r.data = r.data[:0]
+			r.pos = 0
 			return 0, errors.Wrap(err, "read next block")
 		}
 	}
